@@ -26,8 +26,27 @@ Definition pen_derivative (n d : nat) : mat :=
   | 1 => [[r0 o]]
   | _ => gram o (map (diffn o d) (ident o n))
   end.
-(* penalties.derivative(..., periodic=True): differences taken around the circle *)
-Definition pen_periodic (n d : nat) : mat :=
+(* penalties.derivative(..., periodic=True) AS THE CODE BUILDS IT: the d-th difference operator of an augmented
+   identity of size N = n + 2d (N x (n+d)), its first d columns added (times (-1)^d) onto columns n-d..n-1
+   ("wrap"), the lower floor(N/2) rows overwritten by the upper ones reversed in both directions, the centre
+   n x (n-d) block kept, then D D^T.  None = the code raises ValueError ("inconsistent shapes", when n < d). *)
+Definition add_at (r : list T) (pos : nat) (v : list T) : list T :=
+  firstn pos r ++ vadd o (firstn (length v) (skipn pos r)) v ++ skipn (Nat.add pos (length v)) r.
+Definition sgn (d : nat) : T := if Nat.even d then r1 o else rsub o (r0 o) (r1 o).
+Definition periodic_D (n d : nat) : mat :=
+  let N := Nat.add n (Nat.mul 2 d) in
+  let D0 := map (diffn o d) (ident o N) in
+  let D1 := map (fun r => add_at r (Nat.sub n d) (vscale o (sgn d) (firstn d r))) D0 in
+  let nr := Nat.div N 2 in
+  let D2 := firstn (Nat.sub N nr) D1 ++ rev (map (@rev T) (firstn nr D1)) in
+  map (fun r => slice r d (Nat.sub n d)) (slice D2 d n).
+Definition pen_periodic (n d : nat) : option mat :=
+  match n with
+  | 1 => Some [[r0 o]]
+  | _ => if Nat.ltb n d then None else Some (gram o (periodic_D n d))
+  end.
+(* what the property promises for the cyclic penalty: the Gram matrix of cyclic d-th differences *)
+Definition pen_cyclic_spec (n d : nat) : mat :=
   match n with
   | 1 => [[r0 o]]
   | _ => gram o (map (cdiffn o d) (ident o n))
@@ -39,7 +58,7 @@ Definition pen_matrix (k : tkind) (n : nat) (p : pen) : mat :=
   match (match p with PAuto => resolve_auto k | _ => p end) with
   | PAuto => pen_none n (* unreachable *)
   | PDeriv d => pen_derivative n d
-  | PPeriodic d => pen_periodic n d
+  | PPeriodic d => match pen_periodic n d with Some M => M | None => [] end
   | PL2 => pen_l2 n
   | PNone => pen_none n
   end.
